@@ -33,6 +33,11 @@ def classify(direction, m, what):
     return None
 
 
+def devinfo_fits(m):
+    """a device-identification response is a message of the protocol only if its objects fit one PDU"""
+    return m['t'] != 'readDeviceInfo' or sum(2 + len(v) for _, vs in m['information'] for v in vs) <= 246
+
+
 def in_range(direction, m):
     """the property's scope: field values in range and lists that fit a 253-byte PDU"""
     t = m['t']
@@ -54,7 +59,7 @@ def in_range(direction, m):
         return len(m['message']['ws']) <= 125
     if t == 'reportSlaveId':
         return len(m['identifier']) <= 250
-    return True
+    return devinfo_fits(m)
 
 
 def enc(obj):
@@ -105,6 +110,8 @@ def check_batch(ctx, rep, direction, msgs):
         # decode into a used object: decode another message of the same class first
         if d is not None and not req:
             other = msggen.gen_resp(ctx.rng, m['t'])
+            if m['t'] == 'diag':
+                other['sub'] = m['sub']      # same class: the decoder re-classes by sub-function, decode() does not
             if m['t'] == 'exception':
                 other['fc'] = m['fc']  # the function code is a constructor argument, not decoded state
             if in_range('resp', other):
